@@ -13,7 +13,7 @@ RULE = ('generated class models (hierarchies, enums, string-likes, hooks incl. r
         'raising constructors) x documents derived from the type, single/double mutations (tags, '
         'wrong kinds, duplicate / non-scalar / merge keys), token soup and mutated valid texts; the '
         'exception class of the real load is observed.  Non-trivial = the load fails.'
-        'Directed families: class-key faults (repeated / dashed / odd-named keys with a required'
+        ' Directed families: class-key faults (repeated / dashed / odd-named keys with a required'
         " key missing, explicitly core-tagged scalars PyYAML's constructors refuse), untyped"
         ' regions, recognisers that pin a value (every scalar kind) on such scalars, the'
         ' no-argument RecognitionError().')
